@@ -16,6 +16,7 @@ var propC19 = parserProp{
 	opts: func(kind string) histOpts {
 		o := defaultHistOpts()
 		o.maxText = 900
+		o.triplePct = 15
 		return o
 	},
 	classify: func(x *parserExec) ([]string, bool) {
@@ -320,6 +321,98 @@ func TestC19Runs(t *testing.T) {
 				}
 				c := x.Case()
 				st.eval(cl, x.runBlocksAfterShrink > 0, hashJSON(c), "runs-"+kind, func() any { return c })
+			})
+		})
+	}
+}
+
+// TestC19Triple: one string three times (A ... B ... C, see genTripleText) in a
+// buffer that holds all of it, a window drawn so that A, B are inside or
+// outside of it as seen from C, tables large enough for the entries of B to
+// survive the filler, C at the end of the data or of a block. Written in one
+// or two pieces and parsed to the end; the oracles are those of TestC19 (and of
+// C02 for the window).
+func TestC19Triple(t *testing.T) { tripleProp(t, "C19") }
+
+// TestC02Triple: the same histories judged by C02's oracle (offsets within the
+// window although an earlier copy lies outside of it).
+func TestC02Triple(t *testing.T) { tripleProp(t, "C02") }
+
+func tripleProp(t *testing.T, prop string) {
+	st := statsFor(prop)
+	for _, kind := range kindsFromEnv([]string{"HP", "BHP", "DHP", "BDHP", "BUP", "GSAP"}) {
+		kind := kind
+		t.Run(kind, func(t *testing.T) {
+			rapid.Check(t, func(t *rapid.T) {
+				cfg := genPCfg(t, kind, 400)
+				cfg.BufferSize = rapid.IntRange(300, 3000).Draw(t, "tBuf")
+				cfg.WindowSize = rapid.IntRange(16, cfg.BufferSize).Draw(t, "tWin")
+				if rapid.Bool().Draw(t, "tWinSmall") {
+					cfg.WindowSize = rapid.IntRange(16, maxInt(cfg.BufferSize/4, 17)).Draw(t, "tWinS")
+				}
+				cfg.ShrinkSize = 0
+				if rapid.IntRange(0, 2).Draw(t, "tBits") > 0 {
+					// entries survive a few hundred bytes of filler
+					if cfg.HashBits != 0 || kind == "HP" || kind == "BHP" || kind == "BUP" {
+						cfg.HashBits = minInt(8*maxInt(cfg.InputLen, 2), rapid.IntRange(12, 16).Draw(t, "tHashBits"))
+						if kind == "BUP" && cfg.HashBits > 12 {
+							cfg.HashBits = 12
+						}
+					}
+					if kind == "DHP" || kind == "BDHP" {
+						cfg.HashBits1 = minInt(8*maxInt(cfg.InputLen1, 2), rapid.IntRange(12, 16).Draw(t, "tHashBits1"))
+						cfg.HashBits2 = minInt(8*maxInt(cfg.InputLen2, 3), rapid.IntRange(12, 16).Draw(t, "tHashBits2"))
+					}
+				}
+				cc := cfg.Completed()
+				text := genTripleText(t, cc, 3000)
+				switch rapid.IntRange(0, 3).Draw(t, "tBlk") {
+				case 0:
+					cfg.BlockSize = len(text) // C ends the only block
+				case 1:
+					cfg.BlockSize = 0
+				case 2:
+					cfg.BlockSize = maxInt(len(text)/rapid.IntRange(2, 5).Draw(t, "tBlkDiv"), 1)
+				}
+				x, err := newParserExec(cfg)
+				if err != nil {
+					st.class("config-rejected:" + kind)
+					return
+				}
+				beginCase(prop, "triple-"+kind, func() any { return x.Case() })
+				defer endCase()
+				cut := len(text)
+				if rapid.IntRange(0, 3).Draw(t, "tTwoWrites") == 0 {
+					cut = rapid.IntRange(0, len(text)).Draw(t, "tCut")
+				}
+				x.step(POp{Op: "write", Data: text[:cut]})
+				if cut < len(text) {
+					for k := rapid.IntRange(0, 3).Draw(t, "tParsesBetween"); k > 0 && x.unparsed() > 0 && !x.dead; k-- {
+						x.step(POp{Op: "parse"})
+					}
+					x.step(POp{Op: "write", Data: text[cut:]})
+				}
+				for k := x.unparsed() + 2; k > 0 && x.unparsed() > 0 && !x.dead; k-- {
+					x.step(POp{Op: "parse"})
+				}
+				endCase()
+				if msg, bad := x.first(prop); bad {
+					recordFailure(prop, "triple-"+kind, x.Case(), msg)
+					t.Fatalf("%s violated (triple %s): %s", prop, kind, msg)
+				}
+				if x.dead {
+					st.abort("triple-" + kind)
+					return
+				}
+				cl := []string{"triple", "kind:" + kind}
+				if x.backwardChecked > 0 {
+					cl = append(cl, "triple:literal-before-match-with-buffered-source")
+				}
+				if x.streamBeyondWindow {
+					cl = append(cl, "triple:match-beyond-one-window")
+				}
+				c := x.Case()
+				st.eval(cl, x.nMatches > 0 && x.streamBeyondWindow, hashJSON(c), "triple-"+kind, func() any { return c })
 			})
 		})
 	}
